@@ -139,6 +139,9 @@ def end_to_end(rep, accs, tier, sd, wd):
     ncustom = sum(1 for c in live if c['key'].startswith('custom/'))
     shapes = set(c['gen']['acc'] for c in live if c['key'].startswith('custom/'))
     nb12 = sum(1 for c in live if c['key'].startswith('c12/'))
+    nstack = sum(1 for c in live if c['key'].startswith('custom/') and 'romstack' in c['gen']['kinds'])
+    if nstack < 6:
+        raise MachineryError('only %d tapes load a ROM block over the return stack' % nstack)
     if ncustom < 0.7 * n * rounds or len(shapes) < 0.7 * n or nb12 < 10:
         raise MachineryError('too few tapes load in the default configuration: custom %d (shapes %d of %d), bin2tap %d; not loading: %s'
                              % (ncustom, len(shapes), n, nb12, notload[:8]))
@@ -193,7 +196,7 @@ def end_to_end(rep, accs, tier, sd, wd):
                       'tape %s (--start %d): configuration [%s] vs [%s]: %s differs (pc %d/%d sp %d/%d R %d/%d T %d/%d) %s'
                       % (c['key'], c['start'], u['cfg'], lead['cfg'] if cl in ('registers', 'r', 'tstates', 'ram', '7ffd') else c['runs'][0]['cfg'],
                          cl, u['pc'], lead['pc'], u['sp'], lead['sp'], u['r'], lead['r'], u['t'], lead['t'], u['err'][:120]), slim)
-    rep.extra['end_to_end'] = dict(tapes=len(live), custom=ncustom, loop_shapes=sorted(shapes), bin2tap=nb12,
+    rep.extra['end_to_end'] = dict(tapes=len(live), custom=ncustom, rom_block_over_stack=nstack, loop_shapes=sorted(shapes), bin2tap=nb12,
                                    runs=sum(len(c['runs']) for c in live), not_loading_by_default=notload,
                                    python_runs=sum(1 for c in live for u in c['runs'] if 'python=1' in u['cfg']),
                                    environments_dropped=sum(len(c.get('dropped') or []) for c in live))
@@ -221,7 +224,7 @@ def run(tier):
                 'every A x carry x {JR,JP} enumerated by TLC; (B) scenarios = loop shape x {near, limit, level, late, iff, blockend} / DEC A '
                 'variants / port-read programs over 1-3 block tapes x {py, c} x speed-up configuration; (C) tapes = bin2tap output (C12 '
                 'generator) and custom-loader TZX tapes (relocated LD-BYTES around each usable recognised loop shape, delay constant, '
-                'turbo/headerless blocks) x configuration matrix; distinct_nontrivial = distinct (scenario key) and (tape key, configuration)')
+                'turbo/headerless blocks, a ROM-loaded block over the live return stack whose words give PC and the return address of the caller) x configuration matrix; distinct_nontrivial = distinct (scenario key) and (tape key, configuration)')
     rep.assumptions = [
         'tap2sna does not write the clock into the snapshot; T is read from simulator.registers at the moment tap2sna takes the snapshot '
         '(wrapper around tap2sna.get_state), everything else comes from the snapshot file via the independent decoder',
